@@ -250,6 +250,7 @@ def run(tier, selftest=False, only=None):
             _case(rep, spec, impl, exp, tag)
     with rep.guard("position-forms", None):
         large_grid_positions(rep, rng)
+    history_checks(rep, tier, seed, rng)
     rep.traces = len(cases)
     rep.sample({"spec_case": cases[0][0], "expected_default_state": [float(UO.mono(m)) for m in out[0]["state"]]})
     if selftest:
@@ -389,6 +390,190 @@ def _case(rep, spec, impl, exp, tag):
             if not close(got[c], want):
                 rep.violation("default", "layout:regenerated-default", dict(tag, cell=c, got=got[c], spec=want))
                 break
+
+
+# ---- histories of one system object (specs/SystemEdit.tla): TLC generates call sequences, the object is driven along them ----
+SE_LABELS = ["A", "B"]
+SE_ENVS = ["a", "b"]
+SE_SPACES = {"Gen_SystemEdit": ("graph", [0, 1, 0], [1, 2, 3]), "Gen_SystemEditGrid": ("grid", [0, 1, 0], [2, 2, 2])}
+
+
+def _tab_arg(tab, conv, rng):
+    """A species' density / chemostat table as the argument a user would write: a scalar when every entry is the same, else a
+    dictionary with the entries that are present ('default' first slot)."""
+    keys = ["default"] + SE_ENVS
+    present = {k: conv(t["v"]) for k, t in zip(keys, tab) if "absent" not in t}
+    if len(present) == len(keys) and len(set(present.values())) == 1 and rng.random() < 0.7:
+        return present["default"]
+    return present
+
+
+def se_build(prog, cfg, rng):
+    kind, cell_env, vol = SE_SPACES[cfg]
+    fl = lambda m: float(UO.mono(m))
+    made = []
+    for s in range(len(prog["dens"])):
+        kw = {"label": SE_LABELS[s]}
+        d = _tab_arg(prog["dens"][s], fl, rng)
+        if d != {} or rng.random() < 0.5:
+            kw["density"] = d
+        c = _tab_arg(prog["chs"][s], bool, rng)
+        if c != {} or rng.random() < 0.5:
+            kw["chstt"] = c
+        made.append(Species(**kw))
+    net = RDNetwork(species=made, reactions=[], environments=SE_ENVS)
+    if kind == "graph":
+        space = RDGraphSpace(nodes=[RDGraphSpaceNode(volume=float(v), environment=e) for v, e in zip(vol, cell_env)], edges=[])
+    else:
+        space = RDGridSpace(w=len(vol), h=1, d=1, cell_vol=float(vol[0]), cell_env=cell_env)
+    return RDSystem(network=net, space=space, units_system=UnitsSystem(quantity=prog["sysq"]))
+
+
+def se_observe(system):
+    return si_state(system), [int(v) for v in system.chemostats]
+
+
+def se_replay(rep, prog, cfg, rng, tag):
+    from strengths import rdsystem_from_dict, rdsystem_to_dict
+    kind, cell_env, vol = SE_SPACES[cfg]
+    N = len(cell_env)
+    fl = lambda m: float(UO.mono(m))
+
+    def differs(system, st, where, step=0):
+        try:
+            got, gc = se_observe(system)
+        except Exception as ex:  # noqa
+            rep.violation("history", "layout:history:unreadable-after:" + where, dict(tag, step=step, exc=repr(ex)[:200]))
+            return True
+        want, wc = [fl(m) for m in st["state"]], [int(bool(b)) for b in st["chem"]]
+        if len(got) != len(want) or not all(close(a, b) for a, b in zip(got, want)) or gc != wc:
+            rep.violation("history", "layout:history:" + where, dict(tag, step=step, got=got, spec=want, got_chem=gc, spec_chem=wc))
+            return True
+        return False
+
+    try:
+        system = se_build(prog, cfg, rng)
+    except Exception as ex:  # noqa
+        rep.violation("history", "layout:history:build-exception", dict(tag, exc=repr(ex)[:200]))
+        return
+    if differs(system, prog, "initial"):
+        return
+    kept = []
+    for k, st in enumerate(prog["steps"]):
+        op, a = st["op"], st["args"]
+        where = op
+        try:
+            if op in ("set_state", "set_chem"):
+                s, c = a["s"], a["c"]
+                spf = [s, SE_LABELS[s], system.network.species[s]][rng.randrange(3)]
+                pos = c if kind == "graph" or rng.random() < 0.5 else rng.choice([(c, 0, 0), P(c, 0, 0)])
+                if op == "set_state":
+                    if a["u"] == "bare":
+                        v = rng.choice([a["v"], float(a["v"])])
+                    else:
+                        v = rng.choice([UnitValue(a["v"], a["u"]), "%d %s" % (a["v"], a["u"])])
+                    system.set_state(spf, pos, v)
+                else:
+                    system.set_chemostat(spf, pos, rng.choice([a["b"], int(a["b"])]))
+            elif op == "reset_state":
+                system.reset_state()
+            elif op == "reset_chem":
+                system.reset_chemostats()
+            elif op == "regen_state":
+                system.set_default_state()
+            elif op == "regen_chem":
+                system.set_default_chemostats()
+            elif op == "edit_dens":
+                system.network.species[a["s"] - 1].density = _tab_arg(st["dens"][a["s"] - 1], fl, rng)
+            elif op == "edit_chs":
+                system.network.species[a["s"] - 1].chstt = _tab_arg(st["chs"][a["s"] - 1], bool, rng)
+            elif op == "edit_env":
+                if kind == "graph":
+                    system.space.nodes[a["c"]].environment = a["e"]
+                else:
+                    env = list(system.space.cell_env)
+                    env[a["c"]] = a["e"]
+                    system.space.cell_env = rng.choice([env, np.array(env)])
+            elif op == "edit_vol":
+                if kind == "graph":
+                    system.space.nodes[a["c"]].volume = rng.choice([float(a["v"]), a["v"], "%d µm3" % a["v"]])
+                else:
+                    system.space.cell_vol = rng.choice([float(a["v"]), a["v"], "%d µm3" % a["v"]])
+            elif op == "assign_state":
+                arr = [float((i * a["k"]) % 4) for i in range(1, len(SE_LABELS) * N + 1)]
+                if a["u"] == "bare":
+                    system.state = rng.choice([arr, np.array(arr)])
+                else:
+                    system.state = UnitArray(arr, a["u"])
+            elif op == "assign_chem":
+                arr = [(i + a["k"]) % 2 for i in range(1, len(SE_LABELS) * N + 1)]
+                system.chemostats = rng.choice([arr, np.array(arr), [bool(x) for x in arr]])
+            elif op == "copy":
+                kept.append((system, k, (prog["steps"][k - 1] if k else prog)))
+                system = system.copy()
+            elif op == "roundtrip":
+                system = rdsystem_from_dict(rdsystem_to_dict(system))
+            else:
+                raise MachineryError("unknown operation in a generated history: %r" % op)
+        except MachineryError:
+            raise
+        except Exception as ex:  # noqa
+            rep.violation("history", "layout:history:exception:" + op, dict(tag, step=k + 1, exc=repr(ex)[:200]))
+            return
+        if differs(system, st, where, k + 1):
+            return
+        # a getter reads the very entry the specification holds at that place
+        s, c = rng.randrange(len(SE_LABELS)), rng.randrange(N)
+        try:
+            gv = system.get_state(SE_LABELS[s], c).convert("molecule").value
+            gb = int(system.get_chemostat(s, c))
+        except Exception as ex:  # noqa
+            rep.violation("history", "layout:history:getter-exception-after:" + op, dict(tag, step=k + 1, exc=repr(ex)[:200]))
+            return
+        if not close(gv, fl(st["state"][s * N + c])) or gb != int(bool(st["chem"][s * N + c])):
+            rep.violation("history", "layout:history:getter-after:" + op, dict(tag, step=k + 1, species=s, cell=c, got=gv, got_flag=gb))
+            return
+    # the originals of the copies are what they were when they were copied
+    for orig, k, st in kept:
+        if differs(orig, st, "original-changed-after-copy"):
+            return
+
+
+def history_checks(rep, tier, seed, rng):
+    depth = 2 if tier == "quick" else 3
+    tlc.write_cfg("MC_SystemEdit_d", open(tlc.workdir() + "/MC_SystemEdit.cfg").read().replace("Depth = 3", "Depth = %d" % depth))
+    r = tlc.run("MC_SystemEdit", cfg="MC_SystemEdit_d", timeout=3000, heap="12g")
+    rep.add_tlc("MC_SystemEdit (every history of %d calls on a 3-cell, 2-species, 2-environment system)" % depth, r)
+    if not r.ok:
+        if r.violated:
+            rep.violation("model", "model:systemedit:" + r.violated, {"tlc": r.tail(30)})
+        else:
+            raise MachineryError("TLC failed: %s\n%s" % (r.error, r.tail(20)))
+    want, tmo = (1500, 40) if tier == "quick" else (20000, 240)
+    ops = {}
+    total = 0
+    for cfg in sorted(SE_SPACES):
+        lines, st = tlc.stream("MC_SystemEdit", cfg, want, seed=seed * 7 + 1, simulate_depth=16, timeout=tmo)
+        if st["error"]:
+            raise MachineryError("TLC generator failed: %s\n%s" % (st["error"], "\n".join(st["other_tail"])))
+        if len(lines) < want // 10:
+            raise MachineryError("TLC generated only %d histories for %s" % (len(lines), cfg))
+        for l in lines:
+            prog = json.loads(tlc.unquote_tla_json(l))
+            total += 1
+            for stp in prog["steps"]:
+                ops[stp["op"]] = ops.get(stp["op"], 0) + 1
+            rep.case({"history": [(x["op"], x["args"]) for x in prog["steps"]], "cfg": cfg, "sysq": prog["sysq"], "dens": prog["dens"]})
+            tag = {"cfg": cfg, "sysq": prog["sysq"], "history": [(x["op"], x["args"]) for x in prog["steps"]],
+                   "initial_density_tables": prog["dens"], "initial_chemostat_tables": prog["chs"]}
+            with rep.guard("history", tag):
+                se_replay(rep, prog, cfg, rng, tag)
+    rep.extra["edit_histories_replayed"] = total
+    rep.extra["edit_history_calls_by_kind"] = ops
+    missing = {"set_state", "set_chem", "reset_state", "reset_chem", "regen_state", "regen_chem", "edit_dens", "edit_chs", "assign_state",
+               "assign_chem", "copy", "roundtrip", "edit_env", "edit_vol"} - set(ops)
+    if missing:
+        raise MachineryError("generated histories never contain: %s" % sorted(missing))
 
 
 def replay(rp):
